@@ -4,9 +4,37 @@
  * (closed: the open ends of the documentation are not attainable after a rounded addition of A). */
 /*@ ghost */
 #define AR_A (self->_area0)
+/* halves are stated by doubling the other side: x + x is exact, while every A/2 written here would add a divider circuit to the formula */
+#define AR_D(x) ((x) + (x))
+#define AR_IN __CPROVER_old(*area)
+#define AR_ODD ((crossings & 1) != 0)
+/* for callers (TestPoint / TestEdge): what was reduced, with which crossing count and conventions, and what came out */
+unsigned g_AR_calls; int g_AR_crossings; _Bool g_AR_reverse, g_AR_sign; double g_AR_in, g_AR_out;
+/*@ ghost-init */
+g_AR_calls = 0;
 /*@ clause pre.area0 src=constructor */
-__CPROVER_requires(AR_A >= 1.0 && !isinf(AR_A) && !isnan(*area) && !isinf(*area))
-/*@ clause frame src=property props=C14 */
+/* the ellipsoid area stored by the constructor is a positive finite number (>= 1 m^2) */
+__CPROVER_requires(AR_A >= 1.0 && AR_A <= 1e300)
+/*@ clause frame src=property props=C14 only=enforce */
 __CPROVER_assigns(*area, vm_last_k)
-/*@ clause post.range src=header props=C08 */
-__CPROVER_ensures(sign ? (-AR_A / 2 <= *area && *area <= AR_A / 2) : (0.0 <= *area && *area <= AR_A))
+/*@ clause frame.caller src=property only=replace */
+__CPROVER_assigns(*area, g_AR_calls, g_AR_crossings, g_AR_reverse, g_AR_sign, g_AR_in, g_AR_out)
+/*@ clause post.ghost src=ghost only=replace */
+__CPROVER_ensures(g_AR_calls == __CPROVER_old(g_AR_calls) + 1 && g_AR_crossings == crossings && g_AR_reverse == reverse && g_AR_sign == sign &&
+                  VERIF_SAME_D(g_AR_in, AR_IN) && VERIF_SAME_D(g_AR_out, *area))
+/*@ clause post.range src=header props=C08 only=enforce */
+__CPROVER_ensures(isnan(AR_IN) || isinf(AR_IN) || (sign ? (-AR_A <= AR_D(*area) && AR_D(*area) <= AR_A) : (0.0 <= *area && *area <= AR_A)))
+/*@ clause post.zero_area src=header props=C08 only=enforce */
+/* "an odd number of crossings adds half of A": a zero sum with an odd crossing count is half the ellipsoid, whatever the conventions */
+__CPROVER_ensures(AR_IN != 0.0 || (AR_ODD ? AR_D(*area) == AR_A : *area == 0.0))
+/*@ clause post.even_signed src=header props=C08 only=enforce */
+/* reverse / sign conventions, stated where every step is exact (|area| < A/2, even count): counter-clockwise area is minus the
+   clockwise sum unless `reverse`; the signed result needs no wrapping, the unsigned one is wrapped into [0, A) by one addition of A */
+__CPROVER_ensures(AR_ODD || !(AR_D(fabs(AR_IN)) < AR_A) || !sign || *area == (reverse ? AR_IN : -AR_IN))
+/*@ clause post.even_unsigned src=header props=C08 only=enforce */
+__CPROVER_ensures(AR_ODD || !(AR_D(fabs(AR_IN)) < AR_A) || sign ||
+                  *area == ((reverse ? AR_IN : -AR_IN) < 0 ? (reverse ? AR_IN : -AR_IN) + AR_A : (reverse ? AR_IN : -AR_IN)))
+/*@ clause post.odd_magnitude src=header props=C08 only=enforce */
+/* odd count, |area| <= A/2, signed convention: the magnitude is A/2 - |area| (half the ellipsoid minus the sum), up to the one rounding of
+   that subtraction; the sign follows the conventions */
+__CPROVER_ensures(!AR_ODD || !(AR_D(fabs(AR_IN)) <= AR_A) || !sign || AR_IN == 0.0 || AR_D(fabs(*area)) == AR_A - AR_D(fabs(AR_IN)))
